@@ -145,6 +145,34 @@ def flipLoop (s : St) : List Nat → R St
     let p ← getPt s.glyph i
     flipLoop { s with glyph := s.glyph.set i { p with on := ¬ p.on } } rest
 
+/-- `Ins_INSTCTRL`: `K = (FT_ULong)args[1]; L = (FT_ULong)args[0]`; `exc->iniRange == tt_coderange_cvt`
+in the prep, `tt_coderange_glyph` in a glyph program. -/
+def instctrl (s : St) (sel v : Int) : St :=
+  let k := wrapU64 sel
+  let l := wrapU64 v
+  if k < 1 ∨ k > 3 then s
+  else
+    let kf := (2 : Int) ^ (k - 1).toNat
+    if l ≠ 0 ∧ l ≠ kf then s
+    else if s.inPrep then
+      -- exc->GS.instruct_control &= ~(FT_Byte)Kf; exc->GS.instruct_control |= (FT_Byte)L;
+      { s with instructControl := (s.instructControl - (if s.instructControl / kf % 2 = 1 then kf else 0)) + l % 256 }
+    else if k = 3 then { s with bc := ¬ (l = 4) }
+    else s
+
+/-- the state a glyph program starts in: `tt_loader_init` (backward compatibility from
+`subpixel_hinting_lean` and instruct control bit 2, computed AFTER `if ( instruct_control & 2 ) exec->GS =
+tt_default_graphics_state`), then `TT_Hint_Glyph`'s `exec->GS = size->GS` (which undoes that reset: the
+prep's graphics state is used whatever bit 1 says) and `TT_Run_Context` (vectors, zone pointers, round
+state, loop).  The cvt, storage and twilight zone live in the size object. -/
+def startGlyph (p : St) (lean : Bool) (glyph : List ZPt) (ends : List Nat) : St :=
+  let ic := if p.instructControl / 2 % 2 = 1 then 0 else p.instructControl
+  { p with glyph := glyph, ends := ends, stack := [],
+           pv := ⟨16384, 0⟩, dv := ⟨16384, 0⟩, fv := ⟨16384, 0⟩,
+           rp0 := 0, rp1 := 0, rp2 := 0, zp0 := 1, zp1 := 1, zp2 := 1, loop := 1,
+           rmode := 0,
+           bc := lean ∧ ic / 4 % 2 = 0, iupx := false, iupy := false, inPrep := false }
+
 /-- one instruction. -/
 def step (op imm : Int) (s : St) : R St := do
   if op = 256 then pure (push s imm)
@@ -425,18 +453,11 @@ def step (op imm : Int) (s : St) : R St := do
     let (sel, s) ← s.pop
     let t := s.scanType
     pure (push s (getinfo sel (t ≠ 0) (t = 4) (t = 1)))
-  -- INSTCTRL: K = args[1] (top) selector, L = args[0] value; glyph program
+  -- INSTCTRL: K = args[1] (top) selector, L = args[0] value
   else if op = 0x8E then do
     let (sel, s) ← s.pop
     let (v, s) ← s.pop
-    let k := wrapU64 sel
-    let l := wrapU64 v
-    if k < 1 ∨ k > 3 then pure s
-    else
-      let kf := (2 : Int) ^ (k - 1).toNat
-      if l ≠ 0 ∧ l ≠ kf then pure s
-      else if k = 3 then pure { s with bc := ¬ (l = 4) }
-      else pure s
+    pure (instctrl s sel v)
   else if 0xC0 ≤ op ∧ op ≤ 0xDF then do
     let fl := op - 0xC0
     let (i, s) ← s.popIdx
